@@ -208,6 +208,46 @@ CLAIMS['C11'] = dict(
     note='Trusted: clang 14 front end/CFG.',
     ref='5 (C11)')
 
+# rules added after the second round of independently seeded changes (DESIGN.md section 7)
+ADDENDA = {
+    'C01': ' Also: logical (EProgCounter) and physical (ProgCounter) addresses are never compared across (the BSR anti-oscillation state).',
+    'C03': ' Also: input-tag clean-up procedures tolerate their second call after EXITM; the name validators reject the empty '
+           'string (constant propagation); the IRPN group count is accepted only when positive; every ChkIO() call in the '
+           'tools stands under a failure test or after errno = 0; a pointer the function itself tests for NULL is never '
+           'dereferenced unguarded.',
+    'C04': ' Also: line bytes are written straight to the file only after the write-behind buffer was flushed.',
+    'C05': ' Also: the measuring pass updates start/stop/granularity only for records the copy selects; the target offset of '
+           'a record depends on the same lane parameters as the byte-lane filter; dimension check of address/byte arithmetic.',
+    'C06': ' Also: per-record Boolean state is assigned before it is read in every record and format; the measuring pass '
+           'applies the same CPU/segment selection as the conversion; dimension check.',
+    'C07': ' Also: the tools\' granularity table (used for short headers) equals the code generators\' Grans[SegCode] per '
+           'header id; fread/fwrite result convention; ChkIO() only under a failure test or after errno = 0.',
+    'C08': ' Also: every operator handler applies the C operator of its symbol to (left, right); logical operators use truth '
+           'values only; a letter is a number-system marker exactly when it is no digit of the current RADIX (linear normal '
+           'form of the comparison).',
+    'C09': ' Also: no carry/borrow/length adjustment of a fill or length counter is overwritten before it can be observed '
+           '(lost update) in the data-definition modules.',
+    'C10': ' Also: STRUCT set-up touches only the struct pseudo segment; rounding of the program counter is done in the '
+           'unsigned address type; ORG and PHASE hold an address operand in the address type; logical and physical addresses '
+           'are not mixed; RESTORE actions are independent of each other.',
+    'C11': ' Also: default values are never applied because of the argument text; the argument list and its counter move '
+           'together and every formal parameter is substituted; terminator-aware growth of line buffers.',
+    'C13': ' Also: nothing but definitions (and look-ups of the name being defined) happens inside a global-scope escape; '
+           'section/forward chain searches stop at the first match.',
+    'C14': ' Also: no generator consumes shared scratch that only other targets assign; 4004 JCN/ISZ take the page from the '
+           'address behind the instruction; masks cover range-checked values.',
+    'C15': ' Also: assembler and disassembler use the same page reference for 4004 JCN/ISZ.',
+    'C17': ' Also: ChkIO() on report outputs stands under a failure test or after errno = 0, so that a report option cannot '
+           'abort the assembly through a stale errno.',
+    'C18': ' Also: no generator consumes shared scratch only other targets assign; the target\'s SwitchFrom runs inside the '
+           'end-of-pass phase before the error accounting is closed.',
+    'C19': ' Also: WriteBytes() undoes its byte swap on every path (the listing is produced afterwards).',
+    'C20': ' Also: ReadLnCont() advances the returned line count once per physical line, terminated or not; restorer/constructor '
+           'pairing of the position state.',
+}
+for _k, _v in ADDENDA.items():
+    CLAIMS[_k]['text'] = CLAIMS[_k]['text'] + _v
+
 NA_REASONS = {}
 
 
